@@ -267,7 +267,9 @@ class World:
         elif k == "try":
             # the statement, checked where the program itself catches a failure: a failing additive construct (operation
             # or Butler.transaction block) must leave everything as it was when the construct was entered
-            watch = _additive(p[1])
+            # (the statement names Butler.transaction blocks and the additive operations put / ingest; insertDimensionData
+            # failing at its second statement keeps its first row until the enclosing transaction ends -- not claimed)
+            watch = _additive(p[1]) and (p[1][0] == "block" or (p[1][0] == "op" and p[1][1] in ("put", "ingest")))
             before = self.light() if watch else None
             try:
                 self.run_prog(p[1])
